@@ -49,6 +49,26 @@ func tsBack(t *timestamppb.Timestamp) int {
 	return int(s)
 }
 
+// Action timestamps use quarter-second steps so that their order depends on the
+// nanosecond part as well: n -> base + n/4 s + (n%4)*250 ms.
+func atsOf(n int) *timestamppb.Timestamp {
+	if n < 0 {
+		return nil
+	}
+	return timestamppb.New(time.Unix(tsBase+int64(n/4), int64(n%4)*250_000_000))
+}
+
+func atsBack(t *timestamppb.Timestamp) int {
+	if t == nil {
+		return -1
+	}
+	s := t.GetSeconds() - tsBase
+	if s < 0 || s > 1_000_000 || t.GetNanos()%250_000_000 != 0 {
+		return -1
+	}
+	return int(s)*4 + int(t.GetNanos()/250_000_000)
+}
+
 func geti(m M, k string) int {
 	switch v := m[k].(type) {
 	case float64:
@@ -306,7 +326,7 @@ func (w *World) build(r M) (hwebsocket.Msg, error) {
 		t := vikjapb.MsgType_MSG_TYPE_VIKJA_ENTITY_ACTION_REQUEST
 		var ea *vikjapb.EntityAction
 		if !mhas(r, "has") || getb(r, "has") {
-			ea = &vikjapb.EntityAction{EntityId: uint32(geti(r, "eid")), Name: gets(r, "name"), Timestamp: tsOf(geti(r, "ats")), Data: dataOf(geti(r, "data"))}
+			ea = &vikjapb.EntityAction{EntityId: uint32(geti(r, "eid")), Name: gets(r, "name"), Timestamp: atsOf(geti(r, "ats")), Data: dataOf(geti(r, "data"))}
 		}
 		return wire(int32(t), &vikjapb.EntityActionRequest{Type: t, Timestamp: ts, RequestId: rid, EntityAction: ea}, ts), nil
 	case "AssetAdd":
@@ -411,7 +431,7 @@ func actBack(a *vikjapb.EntityAction) []any {
 	if a == nil {
 		return []any{-1, "", -1, -1}
 	}
-	return []any{int(a.EntityId), a.Name, tsBack(a.Timestamp), dataBack(a.Data)}
+	return []any{int(a.EntityId), a.Name, atsBack(a.Timestamp), dataBack(a.Data)}
 }
 
 func assetBack(a *odalpb.AssetInstance) []any {
